@@ -128,6 +128,8 @@ def nk_body(o, v):
                   "sort": "std.array.sort (fun a b => if a < b then 'Lesser else if a == b then 'Equal else 'Greater) %s",
                   "fields": "std.record.fields %s", "values": "std.record.values %s",
                   "freeze": "%%record/freeze%% %s", "toarray": "std.record.to_array %s",
+                  "fromarray": "std.record.from_array %s",
+                  "pathead": "(%s |> match { [h, ..t] => h })", "pattail": "(%s |> match { [h, ..t] => t })",
                   "serde": "std.deserialize 'Json (std.serialize 'Json %s)"}
         if o in simple:
             return simple[o] % v
@@ -185,6 +187,14 @@ def nk_body(o, v):
         return "std.record.map %s %s" % (nk_fun2(o[1]), v)
     if k == "mapvalues":
         return "std.record.map_values %s %s" % (nk_fun(o[1]), v)
+    if k == "patfield":
+        return "(%s |> match { {%s = pv, ..rest} => pv })" % (v, o[1][1])
+    if k == "patrest":
+        return "(%s |> match { {%s = pv, ..rest} => rest })" % (v, o[1][1])
+    if k == "recfilter":
+        q = o[1]
+        body = "true" if q == "true" else ("v > %s" % nk_num(q[1]) if q[0] == "valgt" else "k == %s" % json.dumps(q[1][1]))
+        return "std.record.filter (fun k v => %s) %s" % (body, v)
     if k == "insert":
         return "std.record.insert %s %s %s" % (json.dumps(o[1][1]), nk_num(o[2]), v)
     if k == "remove":
@@ -422,6 +432,17 @@ def py_obs(o, t):
         return copy(v)
     if isinstance(o, str):
         v = t.get()
+        if o == "fromarray":
+            need(isinstance(v, list))
+            r = {}
+            for e in v:
+                b = e.get(); need(isinstance(b, dict) and set(b) == {"field", "value"})
+                nm = b["field"].get(); need(isinstance(nm, str)); need(nm not in r)
+                r[nm] = b["value"]
+            return r
+        if o in ("pathead", "pattail"):
+            need(isinstance(v, list) and len(v) > 0)
+            return v[0].get() if o == "pathead" else v[1:]
         if o in ("first", "last", "length", "reverse", "flatten", "sort"):
             need(isinstance(v, list))
             if o == "first":
@@ -525,6 +546,22 @@ def py_obs(o, t):
         return {n: Th(lambda n=n, e=e: py_fun2(o[1], th_val(n), e)) for n, e in v.items()}
     if k == "mapvalues":
         return {n: Th(lambda e=e: py_obs(o[1], e)) for n, e in v.items()}
+    if k == "patfield":
+        need(o[1][1] in v); return v[o[1][1]].get()
+    if k == "patrest":
+        need(o[1][1] in v); r = dict(v); del r[o[1][1]]; return r
+    if k == "recfilter":
+        q, r = o[1], {}
+        for nm in sorted(v):
+            if q == "true":
+                keep = True
+            elif q[0] == "valgt":
+                x = v[nm].get(); need(isnum(x)); keep = x > q[1]
+            else:
+                keep = nm == q[1][1]
+            if keep:
+                r[nm] = v[nm]
+        return r
     if k == "insert":
         need(o[1][1] not in v); r = dict(v); r[o[1][1]] = th_val(o[2]); return r
     if k == "remove":
@@ -620,8 +657,10 @@ def step_from(rng, ty, shape):
         if c < 16:
             i = idx()
             return rng.choice([("atp", i), ("at", i)]), {"arrn": "num", "arrs": "str", "arrb": "bool"}[ty], {}
+        if c < 19:
+            return rng.choice(["first", "last", "pathead"]), {"arrn": "num", "arrs": "str", "arrb": "bool"}[ty], {}
         if c < 21:
-            return rng.choice(["first", "last"]), {"arrn": "num", "arrs": "str", "arrb": "bool"}[ty], {}
+            return "pattail", ty, {"len": max(ln - 1, 0)}
         if c < 27:
             return "length", "num", {}
         if c < 38 and ty == "arrn":
@@ -685,13 +724,18 @@ def step_from(rng, ty, shape):
             return "length", "num", {}
         if c < 80:
             return ("comp", ("atp", idx()), ("access", s(rng.choice(["value", "field"])))), "num", {}
+        if c < 92 and "names" in shape:
+            return "fromarray", "rec", {"names": list(shape["names"])}
         return rng.choice(["deepseq", "serde", "reverse"]), ty, shape
     if ty == "rec":
         names = shape["names"]
         c = rng.below(100)
         nm = lambda: rng.choice(names) if names and not rng.chance(1, 15) else "zz"
+        if c < 17:
+            return (rng.choice(["access", "get", "patfield"]), s(nm())), "num", {}
         if c < 20:
-            return (rng.choice(["access", "get"]), s(nm())), "num", {}
+            k = nm()
+            return ("patrest", s(k)), "rec", {"names": [x for x in names if x != k]}
         if c < 27:
             return "fields", "arrs", {"len": len(names)}
         if c < 38:
@@ -710,8 +754,11 @@ def step_from(rng, ty, shape):
             return ("remove", s(k)), "rec", {"names": [x for x in names if x != k]}
         if c < 72:
             return ("hasfield", s(nm())), "bool", {}
+        if c < 76:
+            return "toarray", "arrrec", {"len": len(names), "names": list(names)}
         if c < 79:
-            return "toarray", "arrrec", {"len": len(names)}
+            q = rng.choice(["true", ("valgt", 0), ("valgt", 2), ("nameeq", s(nm()))])
+            return ("recfilter", q), "rec", ({"names": names} if q == "true" else {"names": []})
         if c < 87:
             fs = []
             for k in rng.shuffle(NAMES + ["e"])[:rng.range(0, 2)]:
